@@ -75,6 +75,21 @@ async def pair_main(sh: Shard, rig, r, rounds):
         if not await rig.quiesce(settle=0.3, limit=30):
             sh.count("real_quiesce_timeouts")
             continue
+        # real time on a possibly loaded box: "quiet for 0.3 s" does not mean "everything has arrived".
+        # The count of acknowledgements is judged once it has caught up with the count of updates, or
+        # after a wait no scheduling delay explains (60 s)
+        import time as _time
+
+        t_w = _time.monotonic()
+        while _time.monotonic() - t_w < 60:
+            sent = [x for x in sim.sock.tx[tx0:] if b"<DATAS>STATP" in x[1]]
+            acks = [x for x in sim.sock.rx[rx0:] if b"<DATAS>STATQ" in x[1]]
+            if len(acks) >= len(sent) and not sim.engine._send_handlers:
+                break
+            await asyncio.sleep(0.1)
+        if _time.monotonic() - t_w > 1.0:
+            sh.count("real_rounds_that_needed_more_than_a_second_to_settle")
+        await asyncio.sleep(0.1)
         sent = [x for x in sim.sock.tx[tx0:] if b"<DATAS>STATP" in x[1]]
         acks = [x for x in sim.sock.rx[rx0:] if b"<DATAS>STATQ" in x[1]]
         sh.evaluations += 1
